@@ -148,10 +148,22 @@ ExpectSeries(R, Dcols, K) ==
       N == Conv(K, LAMBDA a, b : Dot(R.psi[a + 1], R.psi[b + 1]))
   IN SeriesDiv(A, N, <<>>)
 
+(* one-particle density matrix rho_pq = <Psi|a+_p a_q|Psi>/<Psi|Psi>, order *)
+(* by order: Dens[n+1] = table  <<1, 1, p, q>> |-> rho^(n)_pq               *)
+SingleOpCols(p, q, M) ==
+  TLCEval([D \in Dets(M) |-> Accum(ZeroVec(M), Create(p, Annihilate(q, [s |-> 1, D |-> D])), 1)])
+
+DensTables(R, M, K) ==
+  LET orbs == 1..NOrb(M)
+      ser == TLCEval([pq \in orbs \X orbs |-> ExpectSeries(R, SingleOpCols(pq[1], pq[2], M), K)])
+  IN TLCEval([n \in 1..(K + 1) |->
+               TLCEval([x \in {<<1, 1, pq[1], pq[2]>> : pq \in orbs \X orbs} |-> ser[<<x[3], x[4]>>][n]])])
+
 (***************************************************************************)
 (* The model with the ground-state quantities tabulated.  M.gs =           *)
 (*   [K, maxcls, t, tcc : Seq(nid) for t1..tK, E : Seq(nid) for E0..E(K+1),*)
-(*    d : nid of the operator tensor, X : Seq(nid) for <d>(0)..<d>(K)]     *)
+(*    d : nid of the operator tensor, X : Seq(nid) for <d>(0)..<d>(K),     *)
+(*    p : Seq(nid) of the density tensors p0..pK (or <<>>)]                *)
 (* a nid of 0 means: not used by the events of this trace.                 *)
 (***************************************************************************)
 PutTab(tabs, nid, tab) == IF nid >= 1 /\ nid <= Len(tabs) THEN [tabs EXCEPT ![nid] = tab] ELSE tabs
@@ -173,7 +185,8 @@ RsptModel(M) ==
       t2 == PutSeq(t1, g.tcc, amp, 1)
       t3 == PutSeq(t2, g.E, etabs, 1)
       t4 == PutSeq(t3, g.X, xs, 1)
-  IN [M EXCEPT !.tabs = t4]
+      t5 == IF g.p = <<>> THEN t4 ELSE PutSeq(t4, g.p, DensTables(R, M, g.K), 1)
+  IN [M EXCEPT !.tabs = t5]
 
 (***************************************************************************)
 (* Sanity of the oracle itself (checked by MC_Rspt): intermediate          *)
